@@ -269,3 +269,21 @@ pub fn emit_garbage(a: &Args, out: &mut Out) {
     }
     let _ = GStmt::default();
 }
+
+
+// ---------------------------------------------------------------------------
+// RP: every rendering enumerated by TLC (spec/MC_Grammar.tla, RP configuration) through the real parser
+/// `lc3v replay parse hist=<file>`: a history is the byte string of one rendered source text.
+pub fn replay_parse(a: &Args, out: &mut Out) {
+    let hist = std::fs::read_to_string(a.get_str("hist", "")).expect("hist file");
+    let mut run = 0u64;
+    for line in hist.lines() {
+        if line.trim().is_empty() { continue; }
+        let b: Vec<u8> = serde_json::from_str::<Vec<u64>>(line).expect("history").iter().map(|&x| x as u8).collect();
+        let Ok(text) = String::from_utf8(b.clone()) else { continue };
+        run += 1;
+        let mut pj = parse_json(&text);
+        pj["ev"] = json!("Read"); pj["run"] = json!(run); pj["src"] = js::bytes(&b); pj["panic"] = json!(0);
+        out.emit(pj);
+    }
+}
